@@ -112,3 +112,11 @@ pub fn children<'a>(n: &N<'a>) -> Vec<N<'a>> {
 }
 
 pub fn doc_src<'a, D: Doc>(_n: &Node<'a, D>) {}
+
+/// progress marker for triage: the description of the case being executed is written to the
+/// file named by VMON_TRACE (overwritten each time)
+pub fn trace(desc: &dyn Fn() -> String) {
+  if let Ok(p) = std::env::var("VMON_TRACE") {
+    let _ = std::fs::write(p, desc());
+  }
+}
